@@ -234,32 +234,34 @@ fn interface_name<'a>(input: &mut &'a [u8]) -> ModalResult<&'a str, InputError<&
     let start = *input;
     let mut pos = 0;
 
+    // The rest of a segment, after its first character: ([-]*[A-Za-z0-9])*. Dashes that are not
+    // followed by an alphanumeric are not part of the name.
+    fn segment_rest(input: &[u8], mut pos: usize) -> usize {
+        loop {
+            let mut next = pos;
+            while next < input.len() && input[next] == b'-' {
+                next += 1;
+            }
+            if next < input.len() && input[next].is_ascii_alphanumeric() {
+                pos = next + 1;
+            } else {
+                return pos;
+            }
+        }
+    }
+
     // First segment: [A-Za-z]([-]*[A-Za-z0-9])*
     if pos >= input.len() || !input[pos].is_ascii_alphabetic() {
         return Err(ErrMode::Backtrack(ParserError::from_input(input)));
     }
-    pos += 1;
-
-    while pos < input.len() && (input[pos].is_ascii_alphanumeric() || input[pos] == b'-') {
-        pos += 1;
-    }
+    pos = segment_rest(input, pos + 1);
 
     let mut found_dot = false;
-    // Subsequent segments: .[A-Za-z0-9]([-]*[A-Za-z0-9])*
-    while pos < input.len() && input[pos] == b'.' {
+    // Subsequent segments: .[A-Za-z0-9]([-]*[A-Za-z0-9])*. A dot that no segment follows is not
+    // part of the name.
+    while pos + 1 < input.len() && input[pos] == b'.' && input[pos + 1].is_ascii_alphanumeric() {
         found_dot = true;
-        pos += 1; // skip dot
-
-        // Must have at least one alphanumeric after dot
-        if pos >= input.len() || !input[pos].is_ascii_alphanumeric() {
-            break;
-        }
-        pos += 1;
-
-        // Continue with alphanumeric and dashes
-        while pos < input.len() && (input[pos].is_ascii_alphanumeric() || input[pos] == b'-') {
-            pos += 1;
-        }
+        pos = segment_rest(input, pos + 2);
     }
 
     // Check for at least one dot
